@@ -79,6 +79,14 @@ ExpiryViolations(e) ==
   ELSE (IF e.deltaMs < -150 THEN {"NotClosedBeforeExpiry"} ELSE {})
        \cup (IF e.deltaMs > 1500 THEN {"ClosedAtExpiry"} ELSE {})
 
+\* a connection whose network path went silent (no FIN, no RST): the server's keep-alive (30 s interval, 10 s
+\* write timeout) ends it; what remains is the other listener of the endpoint
+StallViolations(e) ==
+  (IF e.deltaMs > 45000 THEN {"SilentDropReleased"} ELSE {})
+  \cup (IF e.deltaMs < 1000 THEN {"HealthyConnectionKept"} ELSE {})
+  \cup (IF e.deltaMs <= 45000 /\ (e.sess # 1 \/ Cnt(e.reg, "e1") # 1 \/ Cnt(e.adv, "e1") # 1 \/ Cnt(e.gos, "e1") # 1)
+        THEN {"RegistryIsOpenConns"} ELSE {})
+
 TraceInit == l = 1 /\ viol = {} /\ drift = 0 /\ cands = {InitState}
 TraceNext ==
   /\ l <= Len(Log)
@@ -86,6 +94,7 @@ TraceNext ==
   /\ LET e == Log[l] IN
      IF e.op = "Reset" THEN cands' = {InitState} /\ viol' = {} /\ drift' = drift
      ELSE IF e.op = "Expiry" THEN cands' = cands /\ viol' = ExpiryViolations(e) /\ drift' = drift
+     ELSE IF e.op = "Stall" THEN cands' = cands /\ viol' = StallViolations(e) /\ drift' = drift
      ELSE LET loose == UNION {Loose(s, e) : s \in cands}
               good == UNION {{t \in Loose(s, e) : OutcomeOK(s, t, e) /\ Matches(t, e)} : s \in cands}
               nxt == IF good # {} THEN good
